@@ -201,7 +201,15 @@ def run_check(pid, tier, seed):
     try:
         meta = annotate.annotate(os.path.join(REPO, 'src'), crate, spec_paths(), os.path.join(VERIF, 'ghost', 'vshim.rs'), ghost_mods())
     except (annotate.AnchorLost, rustlex.ParseError, vspec.SpecError) as e:
-        say(pid, 'UNDECIDED (exit 2): annotator: %s' % e)
+        say(pid, 'annotator: %s' % e)
+        if isinstance(e, annotate.AnchorLost):
+            # the changed code no longer offers the anchor of a contract or hint: it cannot be decided deductively;
+            # bounded stand-in (native lattice search); only a concrete, replayable failing input is reported
+            rp = concretise.bounded_standin(pid, 'lost anchor: %s' % e, [], REPO, scratch, say)
+            if rp:
+                print('VIOLATION property=%s replay=%s' % (pid, rp), flush=True)
+                return 1
+        say(pid, 'UNDECIDED (exit 2)')
         return 2
     say(pid, 'annotated copy of /repo/src: %d functions, %d clauses, %d rewrite applications'
         % (meta['functions_in_crate'], len(meta['clauses']), len(meta['rewrites'])))
@@ -315,6 +323,24 @@ def run_check(pid, tier, seed):
                 return 2
     kani_fail = [h for h in kani_res if h['status'] == 'failed' and h['role'] == 'complete']
 
+    # bounded stand-ins (every tier): clauses that could not be brought under contract are covered by a bounded native check of
+    # the real function; a concrete failing input is a violation, labelled bounded; a pass is never counted as proved
+    standin_res = []
+    standin_hit = None
+    for sd in kani_run.standins_for(pid):
+        exe = concretise.build_replay_crate(REPO, scratch)
+        if not exe:
+            say(pid, 'UNDECIDED (exit 2): replay crate did not build (bounded stand-in %s)' % sd['name'])
+            return 2
+        q = subprocess.run([exe, 'standin', sd['name']], stdout=subprocess.PIPE, stderr=subprocess.PIPE, text=True, timeout=900)
+        cases = [int(l.split()[1]) for l in q.stdout.split('\n') if l.startswith('CASES ')]
+        hits = [l[8:] for l in q.stdout.split('\n') if l.startswith('WITNESS ')]
+        standin_res.append({'name': sd['name'], 'level': 'bounded (not counted as proved)', 'replaces': sd['replaces'], 'bound': sd['bound'],
+                            'cases_executed': cases[0] if cases else 0, 'failing_input': hits[0] if hits else None})
+        say(pid, 'bounded stand-in %s: %d cases executed on the real code, %s' % (sd['name'], cases[0] if cases else 0, 'FAILING INPUT ' + hits[0][:200] if hits else 'no failing input'))
+        if hits and not standin_hit:
+            standin_hit = json.loads(hits[0])
+
     # thorough tier: native re-execution of the witnesses of the repaired defects of this property, and the oracle searches;
     # a hit without a failed obligation means the oracle or a contract is wrong -> undecided, never an alarm by itself
     native = {'witnesses_run': 0, 'witnesses_failed': [], 'oracle_hit': None}
@@ -362,7 +388,7 @@ def run_check(pid, tier, seed):
                 if k.endswith('::' + u['lemma']):
                     fn_times[k] = round(v['ms'], 1)
     fns_under_contract = sorted({c['fn'] for c in meta['clauses']} | set(meta['safe']))
-    violation = bool(mine) or bool(kani_fail)
+    violation = bool(mine) or bool(kani_fail) or standin_hit is not None
 
     evidence = {
         'property_id': pid,
@@ -386,6 +412,7 @@ def run_check(pid, tier, seed):
             'solver_ms_by_function': fn_times,
             'kani': [{k: h[k] for k in ('name', 'role', 'status', 'wall_s', 'bound')} for h in kani_res],
             'native_replays': native,
+            'bounded_standins': standin_res,
             'vacuity_probes': {'checked': probes_checked, 'verified_unexpectedly': vacuous},
             'rewrites_applied': len(meta['rewrites']),
             'rewrite_rules': sorted({r['rule'] for r in meta['rewrites']}),
@@ -399,7 +426,7 @@ def run_check(pid, tier, seed):
         },
         'assumptions': [k + ': ' + v for k, v in ASSUMPTIONS.items()],
         'wall_s': 0.0,
-        'violations': len(mine) + len(kani_fail),
+        'violations': len(mine) + len(kani_fail) + (1 if standin_hit else 0),
     }
 
     rc = 0
@@ -407,7 +434,7 @@ def run_check(pid, tier, seed):
         say(pid, 'UNDECIDED (exit 2): resource limit reached in %s' % sorted({str(u.get('fn')) for u in und}))
         rc = 2
     if violation:
-        rp = concretise.make_replay(pid, mine, kani_fail, meta, REPO, scratch, say, tier)
+        rp = concretise.make_replay(pid, mine, kani_fail, meta, REPO, scratch, say, tier, standin_hit)
         evidence['coverage']['replay'] = rp['path']
         suffix = '' if rp['found_input'] else ' no-failing-input-found'
         for n in sorted(mine):
